@@ -55,7 +55,7 @@ def jobs():
 
 
 def cfg(name, **kw):
-    d = {"spec": "Spec", "rep": "FALSE", "depth": 1000, "emit": 0, "mode": "mc", "avoid": "FALSE", "fuel": 1500000, "salt": 0, "extra": ""}
+    d = {"spec": "Spec", "rep": "FALSE", "depth": 1000, "emit": 0, "mode": "mc", "avoid": "FALSE", "fuel": 3000000, "salt": 0, "extra": ""}
     d.update(kw)
     return checks.write_cfg(name, MC_CFG % d)
 
@@ -71,7 +71,7 @@ def build_o0():
 def run_models(q):
     """Returns dict of results.  All runs are independent: they share the machine through a small thread pool."""
     depth = 3 if q else 4
-    fuel = 1500000 if q else 4000000
+    fuel = 3000000 if q else 6000000
     salt0 = (vc.seed() * 7919) % 1000000
     tasks = {}
 
